@@ -188,7 +188,7 @@ static void checkC09(Ctx& c, long idx, Rng& r) {
     // perturb
     c.setPhase("perturb");
     State s = s0;
-    const double delta = scen == 0 ? 0.0 : scen == 1 ? r.logUni(1e-8, 1e-6) : scen == 2 ? r.logUni(1e-6, 1e-3) : scen == 3 ? r.logUni(1e-3, 1e-1) : r.logUni(1e-6, 1e-2);
+    const double delta = scen == 0 ? 0.0 : scen == 1 ? r.logUni(1e-8, 1e-6) : scen == 2 ? r.logUni(1e-6, 1e-3) : scen == 3 ? r.logUni(1e-3, 1e-1) : (r.coin() ? r.logUni(1e-6, 1e-2) : r.logUni(0.1, 3.0));   // unsatisfiable sets are also started far away (Newton may thrash)
     sys.realize(s, Stage::Instance);
     std::vector<char> freeQ(s.getNQ(), 0), freeU(s.getNU(), 0);
     for (QIndex qx : matter.getFreeQIndex(s)) freeQ[qx] = 1;
